@@ -7,7 +7,12 @@
    speaks of "each listener registered for that change type": a registration that names every change KIND at
    most once ([kinds_distinct]; EntityCreated and EntityCreatedAsync are the same kind) is registered for a
    change iff one of its entries has the change's kind ([registers]), and then asks for one notification, in
-   the mode of that entry ([registered_mode]). *)
+   the mode of that entry ([registered_mode]).
+
+   The kinds of a registration are FIXED WHEN IT IS MADE: [l_types] is the list  changeType :: changeTypes  as the call
+   named it - not whatever the caller's variadic slice (same backing array, possibly re-used for the next registration
+   or overwritten later) holds when an event is delivered.  That the registration code of store_crud.go guarantees this
+   for every caller is Store/EventsReg.v + Properties/C08.v [registration_types_fixed]. *)
 From Coq Require Import List Bool.
 From Storage Require Import Base.Bytes Store.Model Store.Events.
 Import ListNotations.
